@@ -45,6 +45,10 @@ def bulk_script(name, rng, dgram, variant):
 
 def run(ctx):
     if ctx.replay:
+        _rp = vlib.json.load(open(ctx.replay)).get("replay")
+        if isinstance(_rp, dict) and "mode" in _rp and "script" in _rp:   # a replay file of the pool extension (drv_pool)
+            import poollib
+            return poollib.replay(ctx)
         # replay files of the DoH/DoQ extension carry a stream signature
         sig = vlib.json.load(open(ctx.replay)).get("signature", "")
         if sig.startswith(("doh:", "doq:", "stream:")) or "transport" in (vlib.json.load(open(ctx.replay)).get("replay") or {}):
@@ -137,3 +141,12 @@ def run(ctx):
     # ---- DoH / DoQ (one private request / stream per call): spec/StreamPerQuery.tla, harness/drv_stream
     import stream_extra
     stream_extra.run_extra(ctx)
+
+    # ---- the same property on the connection pools (reuse.go, pipeline.go + conn_lazy_dial.go):
+    # spec/ReuseConn.tla, spec/LazyPipeline.tla, harness/drv_pool (checks/pool_extra.py)
+    import pool_extra
+    _ev, _dn = ctx.cov.get("evaluations", 0), ctx.cov.get("distinct_nontrivial", 0)
+    _recs = pool_extra.run_c01_reuse(ctx)
+    _ran = [r for r in _recs if not r.get("skipped")]
+    ctx.cov["evaluations"] = _ev + len(_ran)
+    ctx.cov["distinct_nontrivial"] = _dn + len({r["name"].split("#")[0] for r in _ran if r["steered"]})
